@@ -107,12 +107,16 @@ def r2(ctx, F):
         fl = flow_of(b)
         for sb, st in fl.calls_to('meta::set_local_mtime'):
             to = fl.origins(st['args'][1])
-            pure = bool(to) and all((o.kind == 'upvar' and b.upvars.get(int(o.key)) == 'mtime' or o.kind == 'param' and b.local_name(o.key) == 'mtime')
-                                    and o.path == ('0',) for o in to)
-            po = fl.origins(st['args'][0])
-            dst_ok = bool(po) and all((o.kind == 'upvar' and b.upvars.get(int(o.key)) in ('dst', 'local_dest')) or
-                                      (o.kind == 'param' and b.local_name(o.key) in ('dst', 'local_dest')) for o in po)
+            # roles by type / use: the time is the payload of the fn's Option<i64> parameter, the path is the parameter renamed onto
+            mt_slots = set(params_of_type(F, b, lambda ty: ty.replace(' ', '') == 'std::option::Option<i64>'))
+            ts = param_slots(F, b, to)
+            pure = bool(to) and ts is not None and len(ts) == 1 and ts <= mt_slots and all(o.path == ('0',) for o in to if o.kind != 'comb')
             renames = fl.calls(lambda c: c.endswith('fs::rename'))
+            rdst = set()
+            for rb_, rt_ in renames:
+                rdst |= (param_slots(F, b, fl.origins(rt_['args'][1])) or set())
+            ps = param_slots(F, b, fl.origins(st['args'][0]))
+            dst_ok = ps is not None and len(ps) == 1 and ps == rdst
             after = all(fl.guarded_by(sb, rb, 'Ok') for rb, _ in renames) and bool(renames)
             ctx.check(pure and dst_ok and after, 'C14.R2', '%s:set_local_mtime(dst, t)' % fn.split('::')[-1], 'mtime parameter passed unchanged, on the delivered file, after the rename',
                       '%s sets a modified value / on another path / before the rename (pure=%s, dst=%s, after rename=%s)' % (fn, pure, dst_ok, after), term_loc(b, sb))
